@@ -256,3 +256,18 @@ class World:
     # optional extra shrink candidates: yields smaller descs
     def shrink(self, desc: dict):
         return iter(())
+
+
+def scribble(ctx, tensors):
+    """aliasing fault: the caller reuses (overwrites in place) tensors it has just handed to the system under test;
+    a component that kept a reference instead of a copy shows it in its next read"""
+    import torch
+
+    for t in tensors:
+        if not isinstance(t, torch.Tensor):
+            continue
+        if t.dtype == torch.bool:
+            t.copy_(~t)
+        else:
+            t.add_(3)
+    ctx.fault("caller_overwrites_input_tensor")
